@@ -95,7 +95,9 @@ var templates = []tmpl{
 	fmt.Println(apply(func(x int) int { return x + k }, apply(func(y int) int { return y * 2 }, 4)))`,
 		}, min: 3},
 	{kind: "lambda-block", weight: 8, imports: []string{"fmt", "sync"},
+		decls: "func tw§(x int) (int, string) { return x + §, \"tw\" }\n",
 		lines: []string{
+			`pair(func(x int) (int, string) { return tw§(x) })`,
 			`sum := 0
 	each([]int{1, 2, 3}, func(x int) {
 		sum += x
